@@ -44,10 +44,17 @@ def run(chk):
     bounded(chk)
 
 
-def one(rule, shape):
+def _labels_goal(goals, ops, allowed, why):
+    labels = set()
+    for op in ops:
+        labels |= {a_.__name__ for a_ in getattr(op, "annotations", set())}
+    goals.append((f"reported labels on the factors are among {sorted(allowed)} ({why})", z3.BoolVal(labels <= set(allowed))))
+
+
+def one(rule, shape, prop="C16"):
     from vcgen.rules import sym_dim
     from cola.ops import operators as O
-    keybase = f"C16/svd[{'LinearOperator,DenseSVD' if rule == 'dense' else 'Identity,Algorithm'};{shape}]"
+    keybase = f"{prop}/svd[{'LinearOperator,DenseSVD' if rule == 'dense' else 'Identity,Algorithm'};{shape}]"
     fnname = "cola.linalg.svd.svd.svd"
     alg.ESCALATE[0] = not known_related(keybase)
     t0 = time.time()
@@ -80,6 +87,7 @@ def one(rule, shape):
             eye = z3.If(r == c, z3.RealVal(1), z3.RealVal(0))
             goals.append(("U = V = I (unitary), Sigma = I (non-negative diagonal), so U Sigma V^H = I",
                           z3.And(ents_expr(Ud.at(r, c)) == eye, ents_expr(Vd.at(r, c)) == eye, ents_expr(S.diag.at(r)) == 1, iterm(S.diag.shape[0]) == m.term)))
+            _labels_goal(goals, (U, V), ("Unitary", "Stiefel", "PSD", "SelfAdjoint"), "U = V = I")
             return goals
         A, a = idx.make_abstract_op("A", m, n)
         Uf = z3.Function(CTX.fresh("U"), I, I, R)
@@ -107,6 +115,7 @@ def one(rule, shape):
         sdiag = S.diag if hasattr(S, "diag") else None
         if sdiag is None:
             raise Unsupported("Sigma is not a Diagonal operator")
+        _labels_goal(goals, (U, V), ("Stiefel",), "orthonormal columns: the clauses below select distinct columns of the unitary factors of xnp.svd")
         goals.append(("shapes: U is m x r, Sigma is r x r, V is n x r with r = min(m, n)",
                       z3.And(iterm(Ud.shape[0]) == m.term, iterm(Ud.shape[1]) == rr, iterm(sdiag.shape[0]) == rr, iterm(Vd.shape[0]) == n.term, iterm(Vd.shape[1]) == rr)))
         i = z3.Int(CTX.fresh("i"))
@@ -164,7 +173,7 @@ def one(rule, shape):
     return out
 
 
-def diag_one(dt):
+def diag_one(dt, prop="C16"):
     """svd(Diagonal): the REAL rule on a symbolic diagonal d (index domain).  code == spec:  mag_i = |d_i|,  phase_i = d_i/|d_i| if |d_i| > 0 else 1,
     U = Diagonal(phase), Sigma = Diagonal(mag), V = I; and the spec meets the svd contract:  mag >= 0,  phase_i mag_i = d_i (U Sigma V^H = A entrywise),
     conj(phase_i) phase_i = 1 (a diagonal matrix with unimodular entries is unitary)."""
@@ -213,7 +222,7 @@ def diag_one(dt):
             ok2 = symalg.zero_after(sp.conjugate(ph) * ph - 1, [])[0]
             goals.append(("spec (|d_i| > 0): phase_i Sigma_i = d_i and conj(phase_i) phase_i = 1; (d_i = 0): phase 1, Sigma 0 (|d| = 0 iff d = 0: Mathlib norm_eq_zero)", bool(ok1 and ok2)))
         return goals
-    return K.run_paths(f"C16/svd[Diagonal,Algorithm;{dt}]", "cola.linalg.svd.svd.svd", thunk, dict(engine="SVD-BOUNDED", rule="diagonal"), keep_real=("svd",))
+    return K.run_paths(f"{prop}/svd[Diagonal,Algorithm;{dt}]", "cola.linalg.svd.svd.svd", thunk, dict(engine="SVD-BOUNDED", rule="diagonal"), keep_real=("svd",))
 
 
 def bounded(chk):
@@ -247,7 +256,7 @@ def op_from_entries(label, rows, cols, entry, dtype):
     return op
 
 
-def lanczos_svd_one(dt, shape):
+def lanczos_svd_one(dt, shape, prop="C16"):
     """svd(A, k, 'LM', Lanczos) proved from the real rule (finite-sum algebra, vcgen/symalg.py):
        callee contract of lanczos_eigs(G): G W = W diag(w) with W unitary, w ascending and positive (full rank); obligation: G is A^H A (tall / square) or A A^H (wide).
        conclusions: the factor computed from the other one has orthonormal columns; the sliced eigenvector factor has orthonormal columns; Sigma >= 0;
@@ -385,6 +394,7 @@ def lanczos_svd_one(dt, shape):
         rule_unit = symalg.pair_rule(W_s, 0, W_s, 0, cplx, lambda pa, pb: [sp.KroneckerDelta(pa[1], pb[1])])    # W unitary
         RULES = [rule_gram, rule_eig, rule_unit]
 
+        _labels_goal(goals, (U, V), ("Stiefel",), "orthonormal columns: the two orthonormality clauses of this rule")
         comp, eigf = (Ud, Vd) if tall else (Vd, Ud)      # comp: the factor computed from the other one; eigf: the sliced eigenvector factor
         col_ = lambda X_, j_: X_[:, SInt(j_)]  # noqa
         ip = lambda X_, x_, y_: T.tr(ents_expr((ifns.conj(col_(X_, x_)) * col_(X_, y_)).sum(0).at()))  # noqa
@@ -403,5 +413,5 @@ def lanczos_svd_one(dt, shape):
         e_rec = T.tr(ents_expr(lhs.at(r0, c0))) - T.tr(ents_expr(rhs.at(r0, c0)))
         goals.append(("U Sigma V^H = A V_k V_k^H (tall) / U_k U_k^H A (wide): the projection of A on the selected singular subspace", bool(symalg.zero_after(e_rec, [])[0])))
         return goals
-    return K.run_paths(f"C16/svd[LinearOperator,Lanczos;{dt};{shape}] proof", "cola.linalg.svd.svd.svd", thunk, dict(engine="SVD-BOUNDED", rule="lanczos"), collapse=False,
+    return K.run_paths(f"{prop}/svd[LinearOperator,Lanczos;{dt};{shape}] proof", "cola.linalg.svd.svd.svd", thunk, dict(engine="SVD-BOUNDED", rule="lanczos"), collapse=False,
                        keep_real=("svd", "dot"), contracts=contracts)
